@@ -4,11 +4,16 @@ KINDS = ['pass', 'fail_output', 'fail_exc', 'all_skipped', 'partly_skipped', 'ex
          'note_then_skip', 'skip_then_note', 'fail_directive_first', 'fail_compile_first', 'late_disable_word', 'warn_then_fail', 'warn_then_pass']
 # kinds used by the native-runner checks only (under pytest a first line '# pytest.skip' is a force-disable word)
 NATIVE_ONLY_KINDS = ['pytest_skip_comment']
+# kinds whose verdict is not fixed by construction but must be the SAME in both front ends: a doctest that needs a module which is
+# compiled into the interpreter (no file), which one front end's process may have imported and the other not
+REQ_MODULE_KINDS = ['requires:faulthandler', 'requires:gc', 'requires:sys', 'requires:json', 'requires:xdverif_no_such_module', 'requires:_thread', 'requires:atexit']
 DISABLE_WORDS = ['# DISABLE_DOCTEST', '#DISABLE', '#  unstable', '# FAILING', '#SCRIPT', '# slow_doctest']
 
 
 def doc_lines(kind, n):
     """doctest lines of one doctest of the given kind; n makes texts unique"""
+    if kind.startswith('requires:'):
+        return ['>>> # xdoctest: +REQUIRES(module:%s)' % kind.split(':', 1)[1], ">>> print('r%d')" % n, 'r%d' % n]
     if kind == 'pass':
         return [">>> print('p%d')" % n, 'p%d' % n]
     if kind == 'fail_output':
